@@ -451,9 +451,11 @@ def extract():
             _, em = _find_method(classes, cls, 'evaluate')
             evalkind = EVALKIND.get(body_key(em), 'unknown') if em else 'unknown'
         ops, params = ctor_ops(classes, cls)
+        _, init_m = _find_method(classes, cls, '__init__')
+        defaults = {n: d for n, d in (init_m['params'][1:] if init_m else []) if d is not None}
         table.append(dict(name=cls, isSpectrum=cls in SPECTRA, binPsd=binpsd, evaluate=evalkind, setters=setters, getters=getters,
                           rebuildReads=rebuild_reads, rebuildPositive=rebuild_pos, geometryReads=geom,
-                          ctorArgs=params, ctor=ops, file=classes[cls]['file'], line=classes[cls]['line']))
+                          ctorArgs=params, ctorDefaults=defaults, ctor=ops, file=classes[cls]['file'], line=classes[cls]['line']))
     src = open(os.path.join(REPO, FILES['constants'])).read()
     m = re.search(r'SPEED_OF_LIGHT\s*=\s*([0-9.eE+-]+)', src)
     c = literal(m.group(1)) if m else None
